@@ -601,7 +601,8 @@ func main() {
 		"proxies": []any{doc{"name": "web", "type": "http", "localPort": 80, "customDomains": []any{"a.com"}, "healthCheck": doc{"type": "http", "path": "/h", "httpHeaders": []any{doc{"name": "X", "value": "Y"}}},
 			"plugin": doc{"type": "http2https", "localAddr": "127.0.0.1:443", "requestHeaders": doc{"set": doc{"a": "b"}}}, "requestHeaders": doc{"set": doc{"x": "y"}}, "transport": doc{"useEncryption": true}, "loadBalancer": doc{"group": "g"}},
 			doc{"name": "ssh", "type": "tcp", "localPort": 22, "remotePort": 6000}},
-		"visitors": []any{doc{"name": "v", "type": "stcp", "serverName": "s", "secretKey": "k", "bindPort": 9000, "transport": doc{"useCompression": true}}}}
+		"visitors": []any{doc{"name": "v", "type": "stcp", "serverName": "s", "secretKey": "k", "bindPort": 9000, "transport": doc{"useCompression": true}},
+			doc{"name": "vn", "type": "stcp", "serverName": "s2", "secretKey": "k", "bindPort": -1, "plugin": doc{"type": "virtual_net", "destinationIP": "10.10.0.2"}}}}
 	for name, dd := range map[string]struct {
 		d    doc
 		into func() any
